@@ -1,19 +1,744 @@
-// Package c16: STUB — property C16 is not built yet.
+// Package c16: HAR entries faithfully describe the exchange and survive a JSON round trip.
 package c16
 
-import "verif/harness/internal/core"
+import (
+	"bytes"
+	"encoding/json"
+	"fmt"
+	"net/http"
+	"net/http/httptest"
+	"sort"
+	"strconv"
+	"strings"
+	"unicode/utf8"
+
+
+	"github.com/google/martian/v3"
+	"github.com/google/martian/v3/har"
+	mlog "github.com/google/martian/v3/log"
+
+	"verif/harness/internal/c15"
+	"verif/harness/internal/core"
+	"verif/harness/internal/msggen"
+)
 
 type P struct{}
 
-func init() { core.Register(P{}) }
+func init() {
+	core.Register(P{})
+	mlog.SetLevel(mlog.Silent)
+}
 
-func (P) ID() string   { return "C16" }
-func (P) Rule() string { return "stub" }
-func (P) Gen(r *core.Rand, tier string, emit func([]string)) {}
-func (P) NewExec() core.Exec                                   { return ex{} }
-func (P) Nontrivial(ops []string, impl []string) bool         { return false }
+func (P) ID() string { return "C16" }
+func (P) Rule() string {
+	return "case = 2-4 generated messages (as in C15: Content-Length / chunked / close-delimited / none; trailers; identity, gzip, deflate, br, " +
+		"mis-announced gzip; text, UTF-8, binary and invalid-UTF-8 bodies; urlencoded and multipart uploads incl. binary files) logged by a " +
+		"real har.Logger under a post-data / body option (all, none, opt-in and opt-out content-type prefix lists, case variants), the " +
+		"resulting entry compared field by field with the Lean model and with an independent oracle (own query/cookie/media-type parsing, " +
+		"expected form parameters from the generator), plus PostData/Content values through real json.Marshal/Unmarshal compared with the " +
+		"model's text-or-base64 choice and base64 string, plus the whole log through the export handler and back; distinct by hash of the " +
+		"op list; non-trivial when the case has a captured non-empty body and a base64 JSON form"
+}
 
-type ex struct{}
+func (P) Nontrivial(ops []string, impl []string) bool {
+	body, b64 := false, false
+	for i, l := range impl {
+		f := strings.Fields(l)
+		if strings.HasPrefix(ops[i], "hreq ") && len(f) >= 10 && f[6] == "pd" && (f[8] != "-" || f[9] != "-") {
+			body = true
+		}
+		if strings.HasPrefix(ops[i], "hres ") && len(f) >= 9 && f[6] != "0" {
+			body = true
+		}
+		if strings.HasPrefix(l, "base64 ") {
+			b64 = true
+		}
+	}
+	return body && b64
+}
 
-func (ex) Do(op string) core.Result { return core.Result{Impl: "bad-op"} }
-func (ex) Close()                   {}
+func fail(sig, format string, a ...interface{}) core.Result {
+	return core.Result{Fail: fmt.Sprintf(format, a...), Sig: sig}
+}
+
+type ex struct {
+	log *har.Logger
+}
+
+func (P) NewExec() core.Exec { return &ex{log: har.NewLogger()} }
+func (e *ex) Close()         {}
+
+// ---- independent readings used by the oracle ----
+
+// MediaType: lower-cased type/subtype in front of the parameters; the raw header when it is not
+// of that shape (har logs the raw header when mime.ParseMediaType fails).
+func MediaType(ct string) string {
+	if ct == "" || strings.Contains(ct, ";;") {
+		return ct
+	}
+	if i := strings.IndexByte(ct, ';'); i >= 0 {
+		ct = ct[:i]
+	}
+	return strings.ToLower(strings.TrimSpace(ct))
+}
+
+func unescape(s string) string {
+	var b []byte
+	for i := 0; i < len(s); i++ {
+		switch {
+		case s[i] == '+':
+			b = append(b, ' ')
+		case s[i] == '%' && i+2 < len(s):
+			v, err := strconv.ParseUint(s[i+1:i+3], 16, 8)
+			if err != nil {
+				b = append(b, s[i])
+				continue
+			}
+			b = append(b, byte(v))
+			i += 2
+		default:
+			b = append(b, s[i])
+		}
+	}
+	return string(b)
+}
+
+func queryOf(u string) []msggen.KV {
+	i := strings.IndexByte(u, '?')
+	if i < 0 || i == len(u)-1 {
+		return nil
+	}
+	var out []msggen.KV
+	for _, p := range strings.Split(u[i+1:], "&") {
+		if p == "" {
+			continue
+		}
+		k, v := p, ""
+		if j := strings.IndexByte(p, '='); j >= 0 {
+			k, v = p[:j], p[j+1:]
+		}
+		out = append(out, msggen.KV{K: unescape(k), V: unescape(v)})
+	}
+	return sortPairs(out)
+}
+
+func sortPairs(l []msggen.KV) []msggen.KV {
+	o := append([]msggen.KV(nil), l...)
+	sort.SliceStable(o, func(i, j int) bool {
+		if o[i].K != o[j].K {
+			return o[i].K < o[j].K
+		}
+		return o[i].V < o[j].V
+	})
+	return o
+}
+
+func cookiePairs(a *msggen.Abs) []msggen.KV {
+	var out []msggen.KV
+	for _, h := range a.Hdr {
+		switch {
+		case a.Req && h.K == "Cookie":
+			for _, p := range strings.Split(h.V, ";") {
+				p = strings.TrimSpace(p)
+				if j := strings.IndexByte(p, '='); j > 0 {
+					out = append(out, msggen.KV{K: p[:j], V: strings.Trim(p[j+1:], "\"")})
+				}
+			}
+		case !a.Req && h.K == "Set-Cookie":
+			p := h.V
+			if j := strings.IndexByte(p, ';'); j >= 0 {
+				p = p[:j]
+			}
+			if j := strings.IndexByte(p, '='); j > 0 {
+				out = append(out, msggen.KV{K: p[:j], V: strings.Trim(p[j+1:], "\"")})
+			}
+		}
+	}
+	return out
+}
+
+func captured(spec, ct string) bool {
+	kind, arg := spec, ""
+	if i := strings.IndexByte(spec, ':'); i >= 0 {
+		kind, arg = spec[:i], spec[i+1:]
+	}
+	match := false
+	if arg != "" && arg != "-" {
+		for _, x := range strings.Split(arg, "+") {
+			b, _ := core.Unhex(x)
+			if strings.HasPrefix(strings.ToLower(ct), strings.ToLower(string(b))) {
+				match = true
+			}
+		}
+	}
+	switch kind {
+	case "all":
+		return true
+	case "none":
+		return false
+	case "in":
+		return match
+	}
+	return !match
+}
+
+// ---- tokens for parameters ----
+
+func ParamsTok(ps []har.Param) string {
+	if len(ps) == 0 {
+		return "-"
+	}
+	q := append([]har.Param(nil), ps...)
+	sort.SliceStable(q, func(i, j int) bool { return q[i].Name < q[j].Name })
+	var s []string
+	for _, p := range q {
+		s = append(s, core.HexS(p.Name)+":"+core.HexS(p.Value)+":"+core.HexS(p.Filename)+":"+core.HexS(p.ContentType))
+	}
+	return strings.Join(s, ",")
+}
+
+func parseParams(tok string) ([]har.Param, bool) {
+	if tok == "-" || tok == "err" {
+		return []har.Param{}, true
+	}
+	out := []har.Param{}
+	for _, p := range strings.Split(tok, ",") {
+		f := strings.Split(p, ":")
+		if len(f) != 4 {
+			return nil, false
+		}
+		var v [4]string
+		for i := range f {
+			b, ok := core.Unhex(f[i])
+			if !ok {
+				return nil, false
+			}
+			v[i] = string(b)
+		}
+		out = append(out, har.Param{Name: v[0], Value: v[1], Filename: v[2], ContentType: v[3]})
+	}
+	return out, true
+}
+
+func hdrTok(hs []har.Header) string {
+	var l []msggen.KV
+	for _, h := range hs {
+		l = append(l, msggen.KV{K: h.Name, V: h.Value})
+	}
+	return kvTok(msggen.SortKV(l))
+}
+
+func kvTok(l []msggen.KV) string {
+	if len(l) == 0 {
+		return "-"
+	}
+	var s []string
+	for _, h := range l {
+		s = append(s, core.HexS(h.K)+":"+core.HexS(h.V))
+	}
+	return strings.Join(s, ",")
+}
+
+func expectedHeaders(a *msggen.Abs) []msggen.KV {
+	l := append([]msggen.KV(nil), a.Hdr...)
+	if a.Req && a.Host != "" {
+		l = append(l, msggen.KV{K: "Host", V: a.Host})
+	}
+	for _, t := range a.TE {
+		l = append(l, msggen.KV{K: "Transfer-Encoding", V: t})
+	}
+	return msggen.SortKV(l)
+}
+
+func (e *ex) Do(op string) core.Result {
+	t := strings.Fields(op)
+	switch t[0] {
+	case "hreq":
+		return e.hreq(t)
+	case "hres":
+		return e.hres(t)
+	case "jsonpd":
+		return jsonpd(t)
+	case "jsoncontent":
+		return jsoncontent(t)
+	case "export":
+		return e.export()
+	}
+	return core.Result{Impl: "bad-op"}
+}
+
+func lastEntry(l *har.Logger, id string) *har.Entry {
+	for _, en := range l.Export().Log.Entries {
+		if en.ID == id {
+			return en
+		}
+	}
+	return nil
+}
+
+// hreq <pdspec> <mode> <mt> <params> M...
+func (e *ex) hreq(t []string) core.Result {
+	if len(t) != 5+msggen.NTok {
+		return core.Result{Impl: "bad-op"}
+	}
+	spec, mode, paramsTok := t[1], t[2], t[4]
+	a, ok := msggen.FromTokens(t[5:])
+	wantParams, ok2 := parseParams(paramsTok)
+	if !ok || !ok2 {
+		return core.Result{Impl: "bad-op"}
+	}
+	req, bad := a.BuildRequest(mode)
+	if bad != "" {
+		return core.Result{Impl: "gen-mismatch " + bad}
+	}
+	ctx, remove, err := martian.TestContext(req, nil, nil)
+	if err != nil {
+		return core.Result{Impl: "ctx-error"}
+	}
+	defer remove()
+	e.log.SetOption(c15.HarOpt(true, spec))
+	if err := e.log.ModifyRequest(req); err != nil {
+		core.Count("hreq:err")
+		if paramsTok != "err" {
+			r := fail("c16:request-not-logged", "ModifyRequest failed on a well-formed request: %v", err)
+			r.Impl = "err"
+			return r
+		}
+		return core.Result{Impl: "err"}
+	}
+	en := lastEntry(e.log, ctx.ID())
+	if en == nil || en.Request == nil {
+		r := fail("c16:request-not-logged", "no entry for the request")
+		r.Impl = "none"
+		return r
+	}
+	r := en.Request
+	pd := "none"
+	if r.PostData != nil {
+		pd = fmt.Sprintf("pd %s %s %s", core.HexS(r.PostData.MimeType), ParamsTok(r.PostData.Params), core.HexS(r.PostData.Text))
+	}
+	impl := fmt.Sprintf("ok %s %s %s %d %s %s", core.HexS(r.Method), core.HexS(r.URL), core.HexS(r.HTTPVersion), r.BodySize, hdrTok(r.Headers), pd)
+	ret := func(sig, f string, x ...interface{}) core.Result {
+		res := fail(sig, f, x...)
+		res.Impl = impl
+		return res
+	}
+	// ---- oracle ----
+	ct := a.Get("Content-Type")
+	if r.Method != a.Method || r.URL != a.URL || r.HTTPVersion != fmt.Sprintf("HTTP/%d.%d", a.Major, a.Minor) {
+		return ret("c16:request-line", "entry has %s %s %s, message %s %s HTTP/%d.%d", r.Method, r.URL, r.HTTPVersion, a.Method, a.URL, a.Major, a.Minor)
+	}
+	if hdrTok(r.Headers) != kvTok(expectedHeaders(a)) {
+		var got []msggen.KV
+		for _, h := range r.Headers {
+			got = append(got, msggen.KV{K: h.Name, V: h.Value})
+		}
+		return ret("c16:request-headers", "header list %s, message has %s", msggen.KVString(msggen.SortKV(got)), msggen.KVString(expectedHeaders(a)))
+	}
+	var q []msggen.KV
+	for _, x := range r.QueryString {
+		q = append(q, msggen.KV{K: x.Name, V: x.Value})
+	}
+	if msggen.KVString(sortPairs(q)) != msggen.KVString(queryOf(a.URL)) {
+		return ret("c16:query", "query parameters %s, URL has %s", msggen.KVString(sortPairs(q)), msggen.KVString(queryOf(a.URL)))
+	}
+	var cs []msggen.KV
+	for _, c := range r.Cookies {
+		cs = append(cs, msggen.KV{K: c.Name, V: c.Value})
+	}
+	if msggen.KVString(cs) != msggen.KVString(cookiePairs(a)) {
+		return ret("c16:cookies", "cookies %s, message has %s", msggen.KVString(cs), msggen.KVString(cookiePairs(a)))
+	}
+	if r.BodySize != a.CL {
+		return ret("c16:body-size", "bodySize %d, Content-Length %d", r.BodySize, a.CL)
+	}
+	hasBody := a.CL > 0 || len(a.TE) > 0
+	if (r.PostData != nil) != hasBody {
+		return ret("c16:postdata-presence", "postData present=%v, message has a body=%v", r.PostData != nil, hasBody)
+	}
+	if r.PostData != nil {
+		p := r.PostData
+		mt := MediaType(ct)
+		if p.MimeType != mt {
+			return ret("c16:postdata-mime", "postData.mimeType %q, Content-Type %q", p.MimeType, ct)
+		}
+		switch {
+		case !captured(spec, ct):
+			core.Count("hreq:not-captured")
+			if p.Text != "" || len(p.Params) != 0 {
+				return ret("c16:capture-option", "post data captured although option %s excludes Content-Type %q", spec, ct)
+			}
+		case mt == "multipart/form-data" || mt == "application/x-www-form-urlencoded":
+			core.Count("hreq:params")
+			if ParamsTok(p.Params) != ParamsTok(wantParams) || p.Text != "" {
+				return ret("c16:postdata-params", "postData.params %v (text %q), the body carries %v", p.Params, p.Text, wantParams)
+			}
+		default:
+			core.Count("hreq:text")
+			if p.Text != string(a.Body) {
+				sig := "c16:postdata-not-body"
+				if a.Chunked() && strings.Contains(p.Text, "\r\n0\r\n") {
+					sig = "c16:postdata-has-chunk-framing"
+				}
+				return ret(sig, "postData.text is %d bytes %q…, the origin receives %d bytes %q…", len(p.Text), clip(p.Text), len(a.Body), clip(string(a.Body)))
+			}
+			if !captured(spec, ct) {
+				return ret("c16:capture-option", "unreachable")
+			}
+		}
+	}
+	return core.Result{Impl: impl}
+}
+
+func clip(s string) string {
+	if len(s) > 40 {
+		return s[:40]
+	}
+	return s
+}
+
+// hres <bdspec> <mode> <inflated> M...
+func (e *ex) hres(t []string) core.Result {
+	if len(t) != 4+msggen.NTok {
+		return core.Result{Impl: "bad-op"}
+	}
+	spec, mode, infl := t[1], t[2], t[3]
+	a, ok := msggen.FromTokens(t[4:])
+	if !ok {
+		return core.Result{Impl: "bad-op"}
+	}
+	req := msggen.DummyReq()
+	res, bad := a.BuildResponse(mode, req)
+	if bad != "" {
+		return core.Result{Impl: "gen-mismatch " + bad}
+	}
+	ctx, remove, err := martian.TestContext(req, nil, nil)
+	if err != nil {
+		return core.Result{Impl: "ctx-error"}
+	}
+	defer remove()
+	e.log.SetOption(c15.HarOpt(false, spec))
+	if err := e.log.ModifyRequest(req); err != nil {
+		return core.Result{Impl: "ctx-error"}
+	}
+	ct := a.Get("Content-Type")
+	cap := captured(spec, ct)
+	if err := e.log.ModifyResponse(res); err != nil {
+		core.Count("hres:err")
+		if !(cap && infl == "err") {
+			r := fail("c16:response-not-logged", "ModifyResponse failed although the body is decodable: %v", err)
+			r.Impl = "err"
+			return r
+		}
+		return core.Result{Impl: "err"}
+	}
+	en := lastEntry(e.log, ctx.ID())
+	if en == nil || en.Response == nil {
+		r := fail("c16:response-not-logged", "no response in the entry")
+		r.Impl = "none"
+		return r
+	}
+	r := en.Response
+	c := r.Content
+	impl := fmt.Sprintf("ok %d %s %d %s %s %d %s %s", r.Status, core.HexS(r.HTTPVersion), r.BodySize, hdrTok(r.Headers),
+		core.HexS(r.RedirectURL), c.Size, core.HexS(c.MimeType), core.Hex(c.Text))
+	ret := func(sig, f string, x ...interface{}) core.Result {
+		res := fail(sig, f, x...)
+		res.Impl = impl
+		return res
+	}
+	// statusText is http.StatusText(code), not the reason phrase of the message (not claimed)
+	if r.Status != a.Code || r.HTTPVersion != fmt.Sprintf("HTTP/%d.%d", a.Major, a.Minor) || r.StatusText != http.StatusText(a.Code) {
+		return ret("c16:status-line", "entry has %d %q %s, message %q HTTP/%d.%d", r.Status, r.StatusText, r.HTTPVersion, a.Status, a.Major, a.Minor)
+	}
+	if hdrTok(r.Headers) != kvTok(expectedHeaders(a)) {
+		return ret("c16:response-headers", "header list %s, message has %s", hdrTok(r.Headers), kvTok(expectedHeaders(a)))
+	}
+	wantLoc := ""
+	if a.Code >= 300 && a.Code < 400 {
+		wantLoc = a.Get("Location")
+	}
+	if r.RedirectURL != wantLoc {
+		return ret("c16:redirect-url", "redirectURL %q, Location %q (status %d)", r.RedirectURL, a.Get("Location"), a.Code)
+	}
+	var cs []msggen.KV
+	for _, c := range r.Cookies {
+		cs = append(cs, msggen.KV{K: c.Name, V: c.Value})
+	}
+	if msggen.KVString(cs) != msggen.KVString(cookiePairs(a)) {
+		return ret("c16:cookies", "cookies %s, message has %s", msggen.KVString(cs), msggen.KVString(cookiePairs(a)))
+	}
+	if r.BodySize != a.CL {
+		return ret("c16:body-size", "bodySize %d, Content-Length %d", r.BodySize, a.CL)
+	}
+	if c.MimeType != ct {
+		return ret("c16:content-mime", "content.mimeType %q, Content-Type %q", c.MimeType, ct)
+	}
+	if !cap {
+		core.Count("hres:not-captured")
+		if len(c.Text) != 0 || c.Size != 0 {
+			return ret("c16:capture-option", "body captured although option %s excludes Content-Type %q", spec, ct)
+		}
+		return core.Result{Impl: impl}
+	}
+	want := a.Body
+	if infl != "na" && infl != "err" {
+		want, _ = core.Unhex(infl)
+		core.Count("hres:decoded")
+	} else {
+		core.Count("hres:identity")
+	}
+	if infl == "err" {
+		return ret("c16:content-undecodable-logged", "undecodable body was logged as %d bytes", len(c.Text))
+	}
+	if !bytes.Equal(c.Text, want) {
+		return ret("c16:content-not-decoded-body", "content.text is %d bytes %q…, decoded body is %d bytes %q…", len(c.Text), clip(string(c.Text)), len(want), clip(string(want)))
+	}
+	if c.Size != int64(len(want)) {
+		return ret("c16:content-size", "content.size %d, decoded body has %d bytes", c.Size, len(want))
+	}
+	return core.Result{Impl: impl}
+}
+
+// ---- JSON ----
+
+func paramsEq(a, b []har.Param) bool {
+	if len(a) != len(b) {
+		return false
+	}
+	for i := range a {
+		if a[i] != b[i] {
+			return false
+		}
+	}
+	return true
+}
+
+func paramsValid(ps []har.Param) bool {
+	for _, p := range ps {
+		if !utf8.ValidString(p.Name) || !utf8.ValidString(p.Value) || !utf8.ValidString(p.Filename) || !utf8.ValidString(p.ContentType) {
+			return false
+		}
+	}
+	return true
+}
+
+func jsonForm(b []byte) (string, string, bool) {
+	var m map[string]json.RawMessage
+	if json.Unmarshal(b, &m) != nil {
+		return "", "", false
+	}
+	kind := "text"
+	if e, ok := m["encoding"]; ok {
+		var s string
+		json.Unmarshal(e, &s)
+		if s != "" {
+			kind = s
+		}
+	}
+	var txt string
+	if x, ok := m["text"]; ok {
+		if json.Unmarshal(x, &txt) != nil {
+			return "", "", false
+		}
+	}
+	return kind, txt, true
+}
+
+// jsonpd <mime> <params> <text>
+func jsonpd(t []string) core.Result {
+	if len(t) != 4 {
+		return core.Result{Impl: "bad-op"}
+	}
+	mime, ok1 := core.Unhex(t[1])
+	ps, ok2 := parseParams(t[2])
+	text, ok3 := core.Unhex(t[3])
+	if !ok1 || !ok2 || !ok3 || t[2] == "err" {
+		return core.Result{Impl: "bad-op"}
+	}
+	p := &har.PostData{MimeType: string(mime), Params: ps, Text: string(text)}
+	b, err := json.Marshal(p)
+	if err != nil {
+		return core.Result{Impl: "marshal-error"}
+	}
+	kind, txt, ok := jsonForm(b)
+	if !ok {
+		return core.Result{Impl: "not-json"}
+	}
+	var q har.PostData
+	rt := "ok"
+	if err := json.Unmarshal(b, &q); err != nil || q.MimeType != p.MimeType || q.Text != p.Text || !paramsEq(q.Params, p.Params) {
+		rt = "lossy"
+	}
+	core.Count("jsonpd:" + kind)
+	impl := fmt.Sprintf("%s %s rt=%s", kind, core.HexS(txt), rt)
+	if rt != "ok" {
+		impl = kind + " ? rt=lossy" // what a lossy string looks like is encoding/json's business
+	}
+	if rt != "ok" {
+		sig := "c16:json-roundtrip-postdata"
+		if q.Text == p.Text && q.MimeType == p.MimeType && !paramsValid(p.Params) {
+			sig = "c16:json-roundtrip-nonutf8-param"
+		}
+		r := fail(sig, "PostData does not survive json.Marshal/Unmarshal: text %d bytes kept=%v, mime kept=%v, params kept=%v", len(p.Text), q.Text == p.Text, q.MimeType == p.MimeType, paramsEq(q.Params, p.Params))
+		r.Impl = impl
+		return r
+	}
+	return core.Result{Impl: impl}
+}
+
+// jsoncontent <b64:0|1> <mime> <text>
+func jsoncontent(t []string) core.Result {
+	if len(t) != 4 {
+		return core.Result{Impl: "bad-op"}
+	}
+	mime, ok1 := core.Unhex(t[2])
+	text, ok3 := core.Unhex(t[3])
+	if !ok1 || !ok3 {
+		return core.Result{Impl: "bad-op"}
+	}
+	c := har.Content{Size: int64(len(text)), MimeType: string(mime), Text: text}
+	if t[1] == "1" {
+		c.Encoding = "base64"
+	}
+	b, err := json.Marshal(c)
+	if err != nil {
+		return core.Result{Impl: "marshal-error"}
+	}
+	kind, txt, ok := jsonForm(b)
+	if !ok {
+		return core.Result{Impl: "not-json"}
+	}
+	var q har.Content
+	rt := "ok"
+	if err := json.Unmarshal(b, &q); err != nil || q.MimeType != c.MimeType || !bytes.Equal(q.Text, c.Text) || q.Size != c.Size || q.Encoding != c.Encoding {
+		rt = "lossy"
+	}
+	core.Count("jsoncontent:" + kind)
+	impl := fmt.Sprintf("%s %s rt=%s", kind, core.HexS(txt), rt)
+	if rt != "ok" {
+		impl = kind + " ? rt=lossy"
+	}
+	// the logger only produces base64 content; the plain form is exercised for the model tie only
+	if rt != "ok" && t[1] == "1" {
+		r := fail("c16:json-roundtrip-content", "Content does not survive json.Marshal/Unmarshal (%d bytes)", len(text))
+		r.Impl = impl
+		return r
+	}
+	return core.Result{Impl: impl}
+}
+
+// export: the whole log through the export handler and back.
+func (e *ex) export() core.Result {
+	rw := httptest.NewRecorder()
+	req, _ := http.NewRequest("GET", "http://martian.proxy/logs", nil)
+	har.NewExportHandler(e.log).ServeHTTP(rw, req)
+	var back har.HAR
+	if err := json.Unmarshal(rw.Body.Bytes(), &back); err != nil || back.Log == nil {
+		return core.Result{SkipModel: true, Impl: "export-bad-json", Fail: fmt.Sprintf("export handler output does not parse: %v", err), Sig: "c16:export-json"}
+	}
+	orig := e.log.Export().Log.Entries
+	core.Count("export")
+	if len(back.Log.Entries) != len(orig) {
+		return core.Result{SkipModel: true, Impl: "export-differs", Fail: fmt.Sprintf("%d entries exported, %d parsed back", len(orig), len(back.Log.Entries)), Sig: "c16:export-roundtrip"}
+	}
+	for i, o := range orig {
+		b := back.Log.Entries[i]
+		if d, paramOnly := entryDiff(o, b); d != "" {
+			sig := "c16:export-roundtrip"
+			if paramOnly {
+				sig = "c16:json-roundtrip-nonutf8-param"
+			}
+			return core.Result{SkipModel: true, Impl: "export-differs", Fail: fmt.Sprintf("entry %d differs after JSON round trip: %s", i, d), Sig: sig}
+		}
+	}
+	return core.Result{SkipModel: true, Impl: fmt.Sprintf("export-ok %d", len(orig))}
+}
+
+func headersEq(a, b []har.Header) bool {
+	if len(a) != len(b) {
+		return false
+	}
+	for i := range a {
+		if a[i] != b[i] {
+			return false
+		}
+	}
+	return true
+}
+
+func cookiesEq(a, b []har.Cookie) bool {
+	if len(a) != len(b) {
+		return false
+	}
+	for i := range a {
+		x, y := a[i], b[i]
+		if x.Name != y.Name || x.Value != y.Value || x.Path != y.Path || x.Domain != y.Domain || x.Expires8601 != y.Expires8601 || x.HTTPOnly != y.HTTPOnly || x.Secure != y.Secure {
+			return false
+		}
+	}
+	return true
+}
+
+// entryDiff compares an entry with its JSON round trip; paramOnly = the only loss is in post-data
+// parameters that are not valid UTF-8.
+func entryDiff(o, b *har.Entry) (string, bool) {
+	switch {
+	case o.ID != b.ID:
+		return "id", false
+	case !o.StartedDateTime.Equal(b.StartedDateTime) || o.Time != b.Time:
+		return "times", false
+	case (o.Request == nil) != (b.Request == nil) || (o.Response == nil) != (b.Response == nil):
+		return "presence of request/response", false
+	}
+	if r, s := o.Request, b.Request; r != nil {
+		switch {
+		case r.Method != s.Method || r.URL != s.URL || r.HTTPVersion != s.HTTPVersion || r.BodySize != s.BodySize || r.HeadersSize != s.HeadersSize:
+			return "request line/sizes", false
+		case !headersEq(r.Headers, s.Headers):
+			return fmt.Sprintf("request headers %v vs %v", r.Headers, s.Headers), false
+		case !cookiesEq(r.Cookies, s.Cookies):
+			return "request cookies", false
+		case len(r.QueryString) != len(s.QueryString):
+			return "query string", false
+		case (r.PostData == nil) != (s.PostData == nil):
+			return "postData presence", false
+		}
+		for i := range r.QueryString {
+			if r.QueryString[i] != s.QueryString[i] {
+				return "query string", false
+			}
+		}
+		if r.PostData != nil {
+			p, q := r.PostData, s.PostData
+			if p.MimeType != q.MimeType {
+				return "postData.mimeType", false
+			}
+			if p.Text != q.Text {
+				return fmt.Sprintf("postData.text (%d bytes)", len(p.Text)), false
+			}
+			if !paramsEq(p.Params, q.Params) {
+				return fmt.Sprintf("postData.params %q vs %q", p.Params, q.Params), !paramsValid(p.Params)
+			}
+		}
+	}
+	if r, s := o.Response, b.Response; r != nil {
+		switch {
+		case r.Status != s.Status || r.StatusText != s.StatusText || r.HTTPVersion != s.HTTPVersion || r.RedirectURL != s.RedirectURL || r.BodySize != s.BodySize || r.HeadersSize != s.HeadersSize:
+			return "status line/sizes", false
+		case !headersEq(r.Headers, s.Headers):
+			return fmt.Sprintf("response headers %v vs %v", r.Headers, s.Headers), false
+		case !cookiesEq(r.Cookies, s.Cookies):
+			return "response cookies", false
+		case (r.Content == nil) != (s.Content == nil):
+			return "content presence", false
+		}
+		if r.Content != nil {
+			c, d := r.Content, s.Content
+			if c.Size != d.Size || c.MimeType != d.MimeType || c.Encoding != d.Encoding || !bytes.Equal(c.Text, d.Text) {
+				return fmt.Sprintf("content (%d bytes, encoding %q)", len(c.Text), c.Encoding), false
+			}
+		}
+	}
+	return "", false
+}
